@@ -83,7 +83,8 @@ def api_snapshot(p):
             "ntr": bool(c._universe.not_truncated) and u is not None and u.number != 0,
             "lat": (c.lattice.value if c.lattice is not None else None),
             "fill": (f.universe.number if f.universe is not None else None),
-            "fill_complex": bool(f.transform is not None or f.multiple_universes),
+            "fill_complex": bool(f.transform is not None),
+            "fill_multi": bool(f.multiple_universes and f.universes is not None),
         })
     return {"mode": mode, "cells": cells, "flags": [bool(p.print_in_data_block[k]) for k in CLASSES],
             "vol_calc": bool(p.cells.allow_mcnp_volume_calc)}
@@ -279,8 +280,9 @@ def expected_data(api):
             exp[(i, "u", None)] = Fraction(-c["u"] if c["ntr"] else c["u"])
         if c["lat"] is not None:
             exp[(i, "lat", None)] = Fraction(c["lat"])
-        if c["fill"] is not None or c["fill_complex"]:
-            exp[(i, "fill", None)] = Fraction(c["fill"]) if c["fill"] is not None else None
+        if c["fill"] is not None or c["fill_multi"]:
+            # a fill with a transform or a matrix: presence on the cell card only (the value list is C03's business)
+            exp[(i, "fill", None)] = Fraction(c["fill"]) if (c["fill"] is not None and not c["fill_complex"] and not c["fill_multi"]) else None
     return exp
 
 
@@ -289,7 +291,7 @@ def judge_write(api, text, den, err):
     api: api_snapshot before the write; den: the Spec's denotation of the written text (None if the write raised)."""
     flags = dict(zip(CLASSES, api["flags"]))
     if err is not None:
-        if err == "ValueError:fill-complex" and flags["fill"] and any(c["fill_complex"] for c in api["cells"]):
+        if err == "ValueError:fill-complex" and flags["fill"] and any(c["fill_complex"] or c["fill_multi"] for c in api["cells"]):
             return None  # documented refusal: FILL with a transform / matrix cannot be printed in the data block
         if err == "ParticleTypeNotInCell" and flags["imp"] and any(c["imp"][m] is None for c in api["cells"] for m in api["mode"]):
             return None  # deliberate refusal: an IMP vector cannot have a hole, and some cell holds no importance for a particle of MODE
